@@ -126,8 +126,16 @@ Inductive case :=
    at a few indices (first, last, chunk boundaries, first mismatch) — evaluated here against the translated code:
    entry 1 = TRS.TransformArray, 2 = TRS.TransformInPlace, 3 = Quaternion.RotateArray run the GENERATED array function
    on the list of sampled inputs (it is element-wise, so a sub-list gives the same elements); entry 0 = mesh level
-   (Mesh.ApplyTRS hands the Position array to TransformArray: generated; Rotate/Translate/Scale: hand-written mesh_map). *)
+   (Mesh.ApplyTRS hands the Position array to TransformArray: generated; Rotate/Translate/Scale: hand-written mesh_map).
+   fingerprint (round 4 follow-up): wsum = sum of the weights w_i = i mod 1024 + 1, sum_in = sum_i w_i * input_i,
+   sum_out = sum_i w_i * output_i over ALL n elements (exact integers; empty lists when the parameters are not integers).
+   Every entry point is affine per element, f v = L v + t, so  sum_out = f(sum_in) + (wsum - 1) t  — one evaluation. *)
 | CBig (tol : Q) (op entry : nat) (n mismatches : N) (len_ok : bool) (p s q : list Q) (samples : list (list Q * list Q))
+       (wsum : N) (sum_in sum_out : list Q)
+(* NewAABBFromPoints on n distinct points (size ladder): lo / hi = componentwise min / max computed by the harness's own
+   scan of all points, (c,e) = the box returned, all_in = every point passed the implementation's Contains and the
+   harness's interval test, samples = some of the points incl. one attaining each of the six extremes *)
+| CBigBox (tol : Q) (n : N) (lo hi c e : list Q) (all_in : bool) (samples : list (list Q))
 (* the remaining exported AABB methods (round 4): mn mx sz vol = Min / Max / Size / Volume of box (c,e); inter = Intersects
    with box (oc,oe); (c3,e3) = the box after Expand(amount) *)
 | CBoxMisc (tol : Q) (c e oc oe : list Q) (amount : Q) (mn mx sz : list Q) (vol : Q) (inter : bool) (c3 e3 : list Q)
@@ -147,6 +155,14 @@ Definition array_model (op entry : nat) (p s q : list Q) (xs : list (vec3 Q)) : 
          | 2 => mesh_map (fun x => v3_mult_by_vector x (v3_of s)) xs
          | _ => Trs.TRS_TransformArray T xs
          end
+  end.
+
+(* (wsum - 1) * t, t = the translation part of the per-element map (p for Translate / ApplyTRS, else 0) *)
+Definition fp_shift (op : nat) (p : list Q) (wsum : N) : vec3 Q :=
+  let k := (inject_Z (Z.of_N wsum) - 1)%Q in
+  match op with
+  | 0 | 2 => mkV3 0%Q 0%Q 0%Q
+  | _ => mkV3 (k * qn p 0)%Q (k * qn p 1)%Q (k * qn p 2)%Q
   end.
 
 (* ------------------------------------------------------------------ model vs implementation *)
@@ -211,8 +227,15 @@ Definition corr_ok (k : case) : bool :=
           let B := box_from_points p0 rest in
           closel tol (v3_to (Aabb.AABB_center B)) c && closel tol (v3_to (Aabb.AABB_extents B)) e
       end
-  | CBig tol op entry n mismatches len_ok p s q samples =>
-      closell tol (map v3_to (array_model op entry p s q (map (fun io => v3_of (fst io)) samples))) (map snd samples)
+  | CBig tol op entry n mismatches len_ok p s q samples wsum sum_in sum_out =>
+      closell tol (map v3_to (array_model op entry p s q (map (fun io => v3_of (fst io)) samples))) (map snd samples) &&
+      match sum_in with
+      | [] => true
+      | _ => closell tol (map (fun fx => v3_to (v3_add fx (fp_shift op p wsum))) (array_model op entry p s q [v3_of sum_in])) [sum_out]
+      end
+  | CBigBox tol n lo hi c e all_in samples =>
+      let B := box_from_points (v3_of lo) [v3_of hi] in
+      closel tol (v3_to (Aabb.AABB_center B)) c && closel tol (v3_to (Aabb.AABB_extents B)) e
   | CBoxMisc tol c e oc oe amount mn mx sz vol inter c3 e3 =>
       let B := box_of c e in
       let B3 := Aabb.AABB_Expand B amount in
@@ -310,18 +333,28 @@ Definition prop_ok (k : case) : bool :=
       (* ... and the box is tight: every face touches a point *)
       forallb (fun i => existsb (fun pt => close tol (qn pt i) (qn c i - qn e i)) pts &&
                         existsb (fun pt => close tol (qn pt i) (qn c i + qn e i)) pts)%Q [0; 1; 2]
-  | CBig tol op entry n mismatches len_ok p s q samples =>
+  | CBig tol op entry n mismatches len_ok p s q samples wsum sum_in sum_out =>
       (* array-level = pointwise scalar entry point on every element, nothing dropped *)
-      len_ok && N.eqb mismatches 0 &&
-      forallb (fun io =>
-        let x := v3_of (fst io) in
-        closel tol (snd io)
-          (v3_to match op with
+      let f x := match op with
                  | 0 => rotate_spec (quat_of q) x
                  | 1 => v3_add x (v3_of p)
                  | 2 => v3_mult_by_vector x (v3_of s)
                  | _ => trs_spec (v3_of p) (v3_of s) (quat_of q) x
-                 end)) samples
+                 end in
+      len_ok && N.eqb mismatches 0 &&
+      forallb (fun io => closel tol (snd io) (v3_to (f (v3_of (fst io))))) samples &&
+      (* weighted fingerprint over all n elements *)
+      match sum_in with
+      | [] => true
+      | _ => closel tol sum_out (v3_to (v3_add (f (v3_of sum_in)) (fp_shift op p wsum)))
+      end
+  | CBigBox tol n lo hi c e all_in samples =>
+      lenb 3 c && lenb 3 e && all_in &&
+      (* the box is exactly [lo, hi] of the harness's scan, every sampled point is inside, every face touches a sample *)
+      closel tol (map2q Qminus c e) lo && closel tol (map2q Qplus c e) hi &&
+      forallb (in_box_tol tol c e) samples &&
+      forallb (fun i => existsb (fun pt => close tol (qn pt i) (qn lo i)) samples &&
+                        existsb (fun pt => close tol (qn pt i) (qn hi i)) samples) [0; 1; 2]
   | CBoxMisc tol c e oc oe amount mn mx sz vol inter c3 e3 =>
       lenb 3 mn && lenb 3 mx && lenb 3 sz && lenb 3 c3 && lenb 3 e3 &&
       (* Min = centre - extents, Max = centre + extents, Size = Max - Min, Volume = product of the sizes *)
